@@ -317,7 +317,7 @@ def rule_segment_plumbing(res, rid, m):
                 for i, prm in enumerate(fn.params):
                     for x in fn.nodes():
                         if x.get("k") == "bin" and x.get("op") in ("==", "!="):
-                            rd = reads(x)
+                            rd = reads(facts.expand(fn, x))
                             if prm["decl"] in rd and fld in rd:
                                 idx = i
             if idx is None:
